@@ -87,6 +87,9 @@ func FuzzC03(f *testing.F) {
 
 func exprProp(t *rapid.T) {
 	{
+		if vstat.OverBudget() {
+			return
+		}
 		vstat.Case()
 		g := &tlx.Gen{T: t, Ops: map[string]int{}}
 		if rapid.IntRange(0, 9).Draw(t, "illtypedcase") < 3 {
@@ -124,6 +127,9 @@ func TestC03TLC(t *testing.T) {
 	var cases []tcase
 	seen := map[string]bool{}
 	rapid.Check(t, func(t *rapid.T) {
+		if vstat.OverBudget() {
+			return
+		}
 		vstat.Case()
 		g := &tlx.Gen{T: t, Ops: map[string]int{}}
 		if rapid.IntRange(0, 9).Draw(t, "illtypedcase") < 3 {
